@@ -107,3 +107,90 @@ func verifLSMNewIterators(l *lsm.LSM, opt *utils.Options) []utils.Iterator {
 	}
 	return out
 }
+
+// ---- commit pipeline model (C34 / C04 / C37): the real sendToWriteCh,
+// commit queue, ring and commit worker run; only the storage calls of the
+// worker are replaced ----
+
+// VerifApplied counts, per user key, how often the commit worker applied a
+// write to the (model) LSM.
+var VerifApplied = map[string]int{}
+
+// VerifBatchOf / VerifVersionOf: the SetBatch call (numbered from 1) and the
+// version with which a user key was last applied.
+var (
+	VerifBatchOf   = map[string]int{}
+	VerifVersionOf = map[string]uint64{}
+	verifBatchSeq  int
+)
+
+func VerifOpenPipelineDB(queueCap int, withOracle bool) *DB {
+	if sym.Symbolic() {
+		verifMVCC = &verifMVCCStore{}
+		VerifApplied = map[string]int{}
+		VerifBatchOf = map[string]int{}
+		VerifVersionOf = map[string]uint64{}
+		verifBatchSeq = 0
+		opt := NewDefaultOptions()
+		opt.DetectConflicts = true
+		db := &DB{opt: opt}
+		db.initWriteBatchOptions()
+		if withOracle { // two 65 536-slot watermark windows: only where transactions are used
+			db.orc = newOracle(*opt)
+		}
+		db.cfMetrics = make([]*cfCounters, int(kv.CFWrite)+1)
+		for i := range db.cfMetrics {
+			db.cfMetrics[i] = &cfCounters{}
+		}
+		db.commitBatchPool.New = func() any {
+			batch := make([]*commitRequest, 0, db.opt.WriteBatchMaxCount)
+			return &batch
+		}
+		db.commitQueue.init(queueCap)
+		db.commitWG.Add(1)
+		go db.commitWorker()
+		return db
+	}
+	dir, err := os.MkdirTemp("", "verif-pipe-")
+	if err != nil {
+		panic(err)
+	}
+	opt := NewDefaultOptions()
+	opt.WorkDir = dir
+	opt.EnableWALWatchdog = false
+	opt.ValueLogGCInterval = 0
+	opt.DetectConflicts = true
+	return Open(opt)
+}
+
+// VerifClosePipeline: what DB.Close does to the write path.
+func VerifClosePipeline(db *DB) {
+	if sym.Symbolic() {
+		db.stopCommitWorkers()
+		return
+	}
+	dir := db.opt.WorkDir
+	_ = db.Close()
+	_ = os.RemoveAll(dir)
+}
+
+func verifVlogWrite(vlog *valueLog, reqs []*request) error {
+	for _, r := range reqs {
+		r.Ptrs = make([]kv.ValuePtr, len(r.Entries))
+	}
+	return nil
+}
+
+func verifLSMSetBatch(l *lsm.LSM, entries []*kv.Entry) error {
+	verifBatchSeq++
+	for _, e := range entries {
+		cf, key, ts := kv.SplitInternalKey(e.Key)
+		VerifApplied[string(key)]++
+		VerifBatchOf[string(key)] = verifBatchSeq
+		VerifVersionOf[string(key)] = ts
+		verifMVCC.recs = append(verifMVCC.recs, &verifRec{cf: cf, key: kv.SafeCopy(nil, key), version: ts, value: kv.SafeCopy(nil, e.Value), meta: e.Meta, expires: e.ExpiresAt})
+	}
+	return nil
+}
+
+func verifUpdateHead(db *DB, ptrs []kv.ValuePtr) {}
